@@ -29,7 +29,8 @@ RULE = ('case = (pool seed, OUT kind, selector per section). The pool seed expan
         '(pool seed, OUT kind, selectors).'
         ' A quarter of the pools are "twin" pools: source a.p8 holds exactly the data OUT already has and its code (like m.lua\'s) is OUT\'s code with another quote style, so a build changes nothing but the spelling of the Lua section - which must still become the source\'s. d.p8.png and an existing .p8.png OUT are PNGs as image tools re-save them (interlaced, filtered, split IDAT, ancillary chunks).'
         ' Error cases include --X "" (empty string) and --X naming a directory; a third of the single and drawn configurations run after an earlier build in the same process from same-named source files with other contents - one that is rejected, or one that succeeds into another output - after which the sources are replaced on disk; b.p8 may lack its final line ends.'
-        " The quick tier also builds every section from one and the same cart (a.p8 / b.p8 / c.p8.png / d.p8.png) for all OUT kinds; c.p8.png's code mentions _update60 and does not compress.")
+        " The quick tier also builds every section from one and the same cart (a.p8 / b.p8 / c.p8.png / d.p8.png) for all OUT kinds; c.p8.png's code mentions _update60 and does not compress."
+        " a.p8's code uses `#include m.lua` (its Lua section is the spliced code); a third of the builds put the OUT argument last.")
 ASSUMPTIONS = ['"section" = the cart memory region (gfx 0x0000-0x1fff incl. the shared half, map 0x2000-0x2fff, gff, '
                'music, sfx) resp. the Lua code text; the version number of OUT is not constrained',
                'empty defaults are taken from the documented empty cart (gfx/map/gff zero, music 41 42 43 44 per '
